@@ -22,6 +22,7 @@ type C13Plan struct {
 	File     lib.FileSpec    `json:"file"`
 	Segs     []int           `json:"segs,omitempty"`
 	Sweep    bool            `json:"sweep,omitempty"` // enumerate every fault point of this file
+	Coarse   bool            `json:"coarse,omitempty"` // sweep of a large file: every write call / every offset within 2 bytes of a write or chunk boundary
 	Disk     *seam.DiskFault `json:"disk_fault,omitempty"`
 	Src      *seam.SrcFault  `json:"src_fault,omitempty"`
 	Delivery seam.Delivery   `json:"delivery"`
@@ -43,7 +44,7 @@ func (C13) Runs(tier string) int {
 func (C13) Meta() core.Meta {
 	return core.Meta{
 		Level: "fault_enumeration",
-		Rule: "a case = (file spec, write segmentation or delivery+read schedule, one injected fault); sweep runs enumerate every write-call index x {permanent,once} x {none,partial} and every byte offset x {permanent,once} of a small file (destination) or every byte offset 0..len x K in {0,1,rest} x {sticky,once-data,once-eof} (source); sampled runs place one fault in multi-chunk files near write/chunk boundaries. Non-trivial = the fault fired inside an operation in flight; distinct = distinct (file skeleton, schedule, fault kind, fault position).",
+		Rule: "a case = (file spec, write segmentation or delivery+read schedule, one injected fault); sweep runs enumerate every write-call index x {permanent,once} x {none,partial} and every byte offset x {permanent,once} of a small file (destination) or every byte offset 0..len x K in {0,1,rest} x {sticky,once-data,once-eof} (source); sampled runs place one fault in multi-chunk files near write/chunk boundaries; coarse sweeps of multi-chunk files enumerate every write call (destination) and every offset within 2 bytes of the header end, the nonce and each chunk boundary (source). Non-trivial = the fault fired inside an operation in flight; distinct = distinct (file skeleton, schedule, fault kind, fault position).",
 		Assumptions: []string{
 			"the destination honours io.Writer (never n<len with nil error); the source never returns (0,nil)",
 			"reference model (sim/ref, validated on the 114 CCTV vectors) decides 'complete valid file for P'",
@@ -94,6 +95,13 @@ func (C13) Generate(r *core.RNG, tier string, idx uint64) interface{} {
 	p.Segs = lib.GenSegs(r, p.File.PLen)
 	p.Delivery = seam.GenDelivery(r)
 	p.Reads = lib.GenReadSched(r)
+	if !p.Sweep && r.Chance(1, 3) && p.Mode != "dearmor" && p.Mode != "enarmor" {
+		p.Sweep, p.Coarse = true, true
+		if p.File.PLen < 65536 {
+			p.File.PLen = lib.GenPLen(r, 3)
+			p.Segs = lib.GenSegs(r, p.File.PLen)
+		}
+	}
 	if !p.Sweep {
 		// one sampled fault; positions biased to boundaries
 		total := estimateLen(p.File)
@@ -119,6 +127,10 @@ func (C13) Generate(r *core.RNG, tier string, idx uint64) interface{} {
 			f := &seam.DiskFault{Call: -1, Byte: -1, Permanent: r.Bool()}
 			if r.Bool() {
 				f.Call = r.Intn(12)
+				if !p.File.Armor && r.Chance(2, 3) {
+					// aim at the chunk writes behind the header (about 4 + 8 writes per stanza, then the nonce)
+					f.Call = 4 + 8*len(p.File.Recips) + r.Intn(p.File.PLen/65536+3)
+				}
 				f.Partial = r.Bool()
 			} else {
 				f.Byte = at
@@ -218,6 +230,9 @@ func (e C13) dstFaults(p *C13Plan, nCalls, nBytes int) []*seam.DiskFault {
 				fs = append(fs, &seam.DiskFault{Call: i, Byte: -1, Permanent: perm, Partial: part})
 			}
 		}
+	}
+	if p.Coarse {
+		return fs // byte offsets of large files are sampled by other runs; here every write call
 	}
 	for b := 0; b < nBytes; b++ {
 		for _, perm := range []bool{true, false} {
@@ -334,6 +349,14 @@ func (e C13) execEnarmor(p *C13Plan, c *core.Ctx) *core.Verdict {
 		w := armor.NewWriter(d)
 		off := 0
 		for _, s := range p.Segs {
+			if s < 0 {
+				n, err := io.Copy(w, &lib.PlainReader{Data: data[off:], Max: -s})
+				if err != nil {
+					return true
+				}
+				off += int(n)
+				break
+			}
 			if off+s > len(data) {
 				s = len(data) - off
 			}
@@ -387,12 +410,32 @@ func (e C13) execEnarmor(p *C13Plan, c *core.Ctx) *core.Verdict {
 
 // ----- source faults -----
 
-func (e C13) srcFaults(p *C13Plan, n int) []*seam.SrcFault {
+func (e C13) srcFaults(p *C13Plan, n int, hdrLen int) []*seam.SrcFault {
 	if !p.Sweep {
 		return []*seam.SrcFault{p.Src}
 	}
 	var fs []*seam.SrcFault
+	near := func(at int) bool {
+		if !p.Coarse {
+			return true
+		}
+		if at < 3 || at > n-3 {
+			return true
+		}
+		if p.File.Armor {
+			return at%4099 == 0 // armored large files: a sparse grid
+		}
+		d := at - hdrLen
+		if d >= -2 && d <= 18 {
+			return true
+		}
+		m := (d - 16) % 65552
+		return d > 16 && (m <= 2 || m >= 65550)
+	}
 	for at := 0; at <= n; at++ {
+		if !near(at) {
+			continue
+		}
 		for _, k := range []int{0, 1, 1 << 20} {
 			if k > 0 && at == n {
 				continue
@@ -423,7 +466,7 @@ func (e C13) execSrc(p *C13Plan, c *core.Ctx) *core.Verdict {
 			hdrLen = l.HeaderLen
 		}
 	}
-	for _, f := range e.srcFaults(p, len(img)) {
+	for _, f := range e.srcFaults(p, len(img), hdrLen) {
 		if f == nil {
 			continue
 		}
